@@ -396,9 +396,9 @@ func main() {
 	imf, _ := os.Create(filepath.Join(*out, "impl.txt"))
 	cases, impl := bufio.NewWriterSize(cf, 1<<20), bufio.NewWriterSize(imf, 1<<20)
 	r := &lib.Rng{S: *seed}
-	n := 400
+	n := 1500
 	if *tier == "thorough" {
-		n = 12000
+		n = 40000
 	}
 	if *replay != 0 {
 		n = 1
